@@ -119,6 +119,45 @@ Property prop_C03(const std::string& variant) {
         }
         NextStats ns;
         check_next(w, o, ns);
+        // "every update recomputes it": unregister one definition (chosen by
+        // the case's hash), update again, compare with the model of what is
+        // left
+        std::size_t total_defs = 0;
+        for (auto& m : c.spec.meths) {
+            total_defs += m.defs.size();
+        }
+        if (o.ok && total_defs > 0) {
+            std::size_t pick = o.hash % total_defs;
+            std::vector<std::pair<int, std::vector<int>>> sel;
+            Spec reduced = c.spec;
+            for (std::size_t m = 0; m < c.spec.meths.size(); ++m) {
+                std::vector<int> keep;
+                for (std::size_t d = 0; d < c.spec.meths[m].defs.size(); ++d) {
+                    if (pick == 0) {
+                        w.unregister_def(m, d);
+                        reduced.meths[m].defs.erase(
+                            reduced.meths[m].defs.begin() + keep.size());
+                        pick = total_defs; // never again
+                    } else {
+                        keep.push_back(int(d));
+                        --pick;
+                    }
+                }
+                sel.push_back({int(m), keep});
+            }
+            UpdateOutcome up2;
+            Outcome o2;
+            if (do_update(w, o2, up2)) {
+                World view(w, reduced, sel);
+                NextStats ns2;
+                check_next(view, o2, ns2);
+                if (!o2.ok) {
+                    o.fail("next-after-second-update: after a definition was "
+                           "unregistered and update ran again: " + o2.message);
+                }
+                o.classes.push_back("next_rechecked_after_second_update");
+            }
+        }
         o.nontrivial = ns.two_general;
         common_classes(c.spec, o);
         if (ns.two_general) {
